@@ -58,7 +58,7 @@ WriteEv(e) ==
         <<~(e.err = "none" /\ e.n # e.len), "C17_short_write_without_error">>,
         <<e.n >= 0 /\ e.n <= e.len, "C17_count">>,
         \* C17: Write after a successful Close fails, without side effects
-        <<~(s.closedOK /\ ((e.err = "none" /\ e.len > 0) \/ e.n > 0)), "C17_write_after_close">>,
+        <<~(s.closedOK /\ (e.err = "none" \/ e.n > 0)), "C17_write_after_close">>,
         \* C01: on a healthy sink writing never fails
         <<~(s.healthy /\ ~s.closedOK /\ e.err # "none"), "C01_write_fails_on_healthy_sink">>,
         \* C07: a failed task is reported by the enclosing call
@@ -86,7 +86,10 @@ GetWrittenEv(e) ==
     CheckAll([s EXCEPT !.lastWritten = e.v], <<
         <<e.v >= s.lastWritten, "C17_counter_not_monotone">>,
         \* C17: after a successful Close GetWritten equals the number of bytes the sink received
-        <<~(s.closedOK /\ ~s.anyFault /\ e.v # e.sinkLen), "C17_getwritten_vs_sink">> >>)
+        <<~(s.closedOK /\ ~s.anyFault /\ e.v # e.sinkLen), "C17_getwritten_vs_sink">>,
+        \* ... also when Close succeeded only at a later attempt (a sink that took part of a buffer makes the stream fail for
+        \* good, so a successful Close after faults means every byte reached the sink exactly once)
+        <<~(s.closedOK /\ s.anyFault /\ e.v # e.sinkLen), "C17_getwritten_vs_sink_after_retry">> >>)
 
 SinkCall(e) == [s EXCEPT !.faultPending = (s.faultPending \/ ~e.ok), !.anyFault = (s.anyFault \/ ~e.ok)]
 
